@@ -49,9 +49,14 @@ def spec_of(i, kind, rng, style="plain"):
         kw.update(script=["enoent"] * 12, suite_loc="/gone")
     elif kind == "badbuild":
         kw.update(exe="exeB", exe_build="make bad")
+        if style == "sharedbuild":
+            # the failing build is the suite's; the executor's build succeeds and is shared with the working runs
+            kw.update(exe="exe0", exe_build="make vm", suite_build="make bad")
     elif kind == "noadapter":
         # a plain name that is no built-in adapter - the same name as the custom adapter other runs may use
         kw.update(adapter_ok=False, adapter="MyLog")
+    if style == "sharedbuild" and kw.get("exe") == "exe0":
+        kw.setdefault("exe_build", "make vm")
     if kind in ("ok", "failk", "fail0", "done") and rng.random() < 0.35:
         kw.update(adapter={"MyLog": "my_log.py"})       # a valid custom adapter (file in the configuration's directory)
     return mh.Spec("B%d" % i, **kw)
@@ -90,7 +95,7 @@ def in_process_part(chk, exprs):
     for ai, kinds in enumerate(assignments(chk)):
         d = session.scratch_dir()
         try:
-            style = ["plain", "plain", "plain", "template", "plain", "args"][ai % 6]
+            style = ["plain", "plain", "sharedbuild", "template", "plain", "args"][ai % 6]
             specs = [spec_of(i, k, rng, style) for i, k in enumerate(kinds)]
             chk.count("executable_style_" + style)
             faulty = rng.random() < 0.15
